@@ -199,6 +199,10 @@ def r_instances(tier):
             out.append(('width', 'oneway3', NAMED['oneway3'], dict(fam=fam, T=3, ne=False, sym_maxdist=False, sym_init=False, sym_minprob=False), (1, 2)))
         out.append(('width', 'A>BC;B>A;C>A', {"A": ["B", "C"], "B": ["A"], "C": ["A"]}, dict(fam='simple_n', T=2, ne=True, sym_maxdist=False, sym_init=False, sym_minprob=False), (1, 2)))
         out.append(('width', 'tri', NAMED['tri'], dict(fam='simple', T=2, ne=False, sym_maxdist=False, sym_init=False, sym_minprob=False), (1, 2, 3)))
+        # a first column that fits the old width (symbolic initial radius) followed by a column that overflows the old AND the new width
+        FORK3 = {"A": ["B"], "B": ["C", "D", "E"], "C": [], "D": [], "E": []}
+        for fam in ('simple', 'dist'):
+            out.append(('width', 'fork3', FORK3, dict(fam=fam, T=2, ne=False, sym_maxdist=False, sym_init=True, sym_minprob=False), (1, 2)))
     else:
         for name, g in library(3, named=('fork',)):
             nedge = len([(u, v) for u in g for v in g[u]])
@@ -252,6 +256,20 @@ def width_claims(ctx):
             if prev['states'] and r['states'] and prev['idx'] == T - 1 and r['idx'] == T - 1:
                 out.append((f"{nm}_widening_never_lowers_probability", ge(r['score'], prev['score'])))
         prev = r
+    # state of the lattice after the last operation: per observation, the expanded candidates (postponement counter not above the
+    # current expansion round) are among the W most probable live ones (plus exact ties), and no postponed one is more probable
+    last = rs[-1]
+    mt = last['mt']
+    Wl = last['op'][1] if last['op'][0] == 'widen' else [o[1]['width'] for o in ctx['ops'] if o[0] == 'new'][0]
+    for t in sorted(mt.lattice):
+        live = [m for m in mt.lattice[t].values(0) if not m.stop]
+        exp = [m for m in live if m.delayed <= mt.expand_now]
+        post = [m for m in live if m.delayed > mt.expand_now]
+        for e in exp:
+            better = z3.Sum(*[z3.If(E.lift(j.logprob) > E.lift(e.logprob), 1, 0) for j in live]) if len(live) > 1 else z3.IntVal(0)
+            out.append((f"obs{t}_expanded_{e.shortkey}_is_among_the_{Wl}_most_probable", better < Wl))
+            for p_ in post:
+                out.append((f"obs{t}_postponed_{p_.shortkey}_not_more_probable_than_expanded_{e.shortkey}", E.lift(p_.logprob) <= E.lift(e.logprob)))
     return out
 
 
